@@ -37,6 +37,27 @@ var c06Templates = [][]string{
 	{"KEYS", "*"}, {"DBSIZE"}, {"RANDOMKEY"}, {"SCAN", "0"},
 }
 
+// invocations that must fail on their arguments (or, on some key types, on the type): whichever error it is, no key
+// may change, appear or disappear ("a failed command leaves every key unchanged")
+var c06FailTemplates = [][]string{
+	{"INCRBY", "K", "abc"}, {"INCRBY", "K", "9223372036854775808"}, {"DECRBY", "K", "1.5"}, {"INCRBYFLOAT", "K", "inf"}, {"INCRBYFLOAT", "K", "-inf"}, {"INCRBYFLOAT", "K", "nan"}, {"INCRBYFLOAT", "K", "abc"},
+	{"HINCRBY", "K", "n", "abc"}, {"HINCRBY", "K", "newf", "1.5"}, {"HINCRBY", "K", "f1", "1"}, {"HINCRBYFLOAT", "K", "n", "inf"}, {"HINCRBYFLOAT", "K", "newf", "-inf"}, {"HINCRBYFLOAT", "K", "newf", "Infinity"}, {"HINCRBYFLOAT", "K", "n", "nan"},
+	{"HINCRBYFLOAT", "K", "newf", "abc"}, {"HINCRBYFLOAT", "K", "f1", "1.5"}, {"HSET", "K", "f"}, {"HSET", "K", "f", "v", "g"}, {"HMSET", "K", "f", "v", "g"}, {"HSETNX", "K", "f"},
+	{"SETEX", "K", "0", "v"}, {"SETEX", "K", "abc", "v"}, {"PSETEX", "K", "-1", "v"}, {"SET", "K", "v", "EX", "0"}, {"SET", "K", "v", "EX", "abc"}, {"SET", "K", "v", "NX", "XX"}, {"SET", "K", "v", "EX", "10", "PX", "10"}, {"SET", "K", "v", "BOGUS"},
+	{"SET", "K", "v", "EX"}, {"SET", "K", "v", "GET", "EX", "-5"}, {"GETEX", "K", "EX", "0"}, {"GETEX", "K", "EX", "abc"}, {"GETEX", "K", "PERSIST", "EX", "5"}, {"SETRANGE", "K", "-1", "x"}, {"SETRANGE", "K", "536870912", "x"}, {"SETRANGE", "K", "abc", "x"},
+	{"SETBIT", "K", "3", "2"}, {"SETBIT", "K", "-1", "1"}, {"SETBIT", "K", "4294967296", "1"}, {"SETBIT", "K", "abc", "1"},
+	{"LSET", "K", "99", "x"}, {"LSET", "K", "abc", "x"}, {"LINSERT", "K", "MIDDLE", "a", "x"}, {"LPOP", "K", "-1"}, {"RPOP", "K", "abc"}, {"LMOVE", "K", "lother", "UP", "LEFT"}, {"LMOVE", "lother", "K", "LEFT", "DOWN"},
+	{"LMPOP", "0", "K", "LEFT"}, {"LMPOP", "1", "K", "MIDDLE"}, {"LMPOP", "1", "K", "LEFT", "COUNT", "0"}, {"LMPOP", "2", "K", "LEFT"}, {"BLPOP", "K", "abc"}, {"BLPOP", "K", "-1"}, {"BLMOVE", "K", "lother", "LEFT", "LEFT", "abc"}, {"BLMPOP", "abc", "1", "K", "LEFT"},
+	{"LTRIM", "K", "a", "b"}, {"LREM", "K", "abc", "a"}, {"LPOS", "K", "a", "RANK", "0"}, {"LPOS", "K", "a", "COUNT", "-1"}, {"LRANGE", "K", "a", "b"}, {"LINDEX", "K", "abc"},
+	{"EXPIRE", "K", "abc"}, {"EXPIRE", "K", "100", "NX", "XX"}, {"EXPIRE", "K", "100", "GT", "LT"}, {"EXPIRE", "K", "100", "BOGUS"}, {"PEXPIRE", "K", "9223372036854775807"}, {"EXPIRE", "K", "9223372036854775807"}, {"EXPIREAT", "K", "abc"}, {"PEXPIREAT", "K", "1.5"},
+	{"SINTERCARD", "0", "K"}, {"SINTERCARD", "2", "K"}, {"SINTERCARD", "1", "K", "LIMIT", "-1"}, {"SINTERCARD", "abc", "K"}, {"SINTERSTORE", "K"}, {"SUNIONSTORE", "K"}, {"SDIFFSTORE", "K"}, {"SMOVE", "K", "sother"}, {"SRANDMEMBER", "K", "abc"}, {"SSCAN", "K", "abc"}, {"SSCAN", "K", "0", "COUNT", "0"},
+	{"SORT", "K", "LIMIT", "0"}, {"SORT", "K", "STORE"}, {"SORT", "K", "ALPHA", "STORE", "dst", "LIMIT", "a", "b"}, {"SORT", "lother", "STORE", "K"}, {"SORT", "K", "BOGUS"},
+	{"BITOP", "NOT", "dst", "K", "other"}, {"BITOP", "XAND", "dst", "K"}, {"BITOP", "NOT", "K", "other", "other"}, {"BITFIELD", "K", "SET", "u64", "0", "1"}, {"BITFIELD", "K", "SET", "u8", "0", "1", "INCRBY", "i99", "0", "1"}, {"BITFIELD", "K", "INCRBY", "u8", "-1", "1"},
+	{"BITFIELD", "K", "SET", "u8", "0", "abc"}, {"BITFIELD", "K", "SET", "u8", "0", "1", "OVERFLOW", "BOGUS"}, {"BITFIELD", "K", "SET", "u8", "0", "1", "GET"}, {"BITFIELD_RO", "K", "SET", "u8", "0", "1"}, {"BITCOUNT", "K", "0"}, {"BITCOUNT", "K", "a", "b"}, {"BITPOS", "K", "2"}, {"GETBIT", "K", "-1"},
+	{"COPY", "K", "dst", "DB", "abc"}, {"COPY", "K", "dst", "BOGUS"}, {"COPY", "other", "K", "DB"}, {"RENAME", "nokey", "K"}, {"RENAMENX", "nokey", "K"}, {"RENAME", "nokey", "nokey"}, {"MSET", "K", "v", "fresh"}, {"MSETNX", "K", "v", "fresh"}, {"MSETNX", "fresh", "w", "K"},
+	{"HRANDFIELD", "K", "abc"}, {"HRANDFIELD", "K", "2", "WITHVALUE"}, {"HSCAN", "K", "abc"}, {"SCAN", "abc"}, {"SCAN", "0", "COUNT", "0"}, {"GETRANGE", "K", "a", "b"}, {"LCS", "K", "other", "IDX", "LEN"}, {"LCS", "K", "other", "MINMATCHLEN"},
+}
+
 var c06Setup = [][]string{
 	{"SET", "other", "ostr"}, {"RPUSH", "lother", "a", "b"}, {"SADD", "sother", "a", "b"},
 }
@@ -72,6 +93,9 @@ func c06Matrix(r *verdict.Run, types []string) {
 	var cells []cell
 	for _, t := range types {
 		for _, tm := range c06Templates {
+			cells = append(cells, cell{tm, t})
+		}
+		for _, tm := range c06FailTemplates {
 			cells = append(cells, cell{tm, t})
 		}
 	}
@@ -314,9 +338,9 @@ func c06Gen(rng *rand.Rand, m *model.Model, keys []string) []string {
 }
 
 func checkC06(r *verdict.Run) {
-	r.Rule = "(1) exhaustive matrix: every data-command template x target key of every type (missing, string, list, hash, set, and the same with a TTL in thorough) on a fresh emulator, reply and full state vs the reference model, failed commands inert; " +
+	r.Rule = "(1) exhaustive matrix: every data-command template (a canonical valid invocation of each command plus 130 invocations that fail on their arguments) x target key of every type (missing, string, list, hash, set, and the same with a TTL in thorough) on a fresh emulator, reply and full state vs the reference model, failed commands inert; " +
 		"(2) removing the last element through 30 different doors, then EXISTS/TYPE/KEYS/SCAN/DBSIZE/LLEN/HLEN/SCARD vs model; " +
-		"(3) random keyspace sequences (DEL/UNLINK/EXISTS/TOUCH/TYPE/RENAME/RENAMENX/COPY/KEYS with glob patterns/RANDOMKEY/DBSIZE/SORT with options) mixed with writes of every type. distinct = matrix cells + doors + (command+options, prior class, outcome)"
+		"(3) random keyspace sequences (DEL/UNLINK/EXISTS/TOUCH/TYPE/RENAME/RENAMENX/COPY/KEYS with glob patterns/RANDOMKEY/DBSIZE/SORT with options) mixed with writes of every type; (4) keyspace churn: sequences of 400-1200 steps creating, deleting, renaming, copying and expiring 37 key names so that the keyspace table grows, shrinks and ages, KEYS */DBSIZE compared after every step. distinct = matrix cells + doors + (command+options, prior class, outcome)"
 	types := []string{"missing", "string", "list", "hash", "set"}
 	if r.Tier == "thorough" {
 		types = append(types, "string+ttl", "list+ttl", "hash+ttl", "set+ttl")
@@ -326,4 +350,66 @@ func checkC06(r *verdict.Run) {
 	c06LastElement(r)
 	runDiffSequences(r, tierPick(r, 200, 4000), func(rng *rand.Rand) int { return 40 + rng.Intn(40) },
 		[]string{"ka1", "kb1", "kc1", "ka2", "w_1", "w_2", "w_3", "w_a", "w_b"}, [][]string{{"SET", "ka1", "s"}, {"RPUSH", "kb1", "3", "1", "2"}, {"SADD", "kc1", "2", "3", "1"}, {"HSET", "ka2", "f", "v"}, {"SET", "w_1", "30"}, {"SET", "w_2", "20"}, {"SET", "w_3", "10"}}, c06Gen)
+	runDiffSequencesN(r, tierPick(r, 24, 240), 2, 10000, func(rng *rand.Rand) int { return 400 + rng.Intn(800) },
+		append([]string{"churn"}, c06ChurnKeys...), [][]string{{"MSET", "key:apple", "1", "key:banana", "2", "key:cherry", "3", "key:date", "4", "key:fig", "5", "key:grape", "6", "k1", "7"}}, c06ChurnGen)
+}
+
+// c06ChurnGen: the keyspace itself under churn: 36 key names created, deleted, renamed, copied and expired over a
+// long sequence (the keyspace table grows, shrinks and ages), with KEYS / DBSIZE / EXISTS / RANDOMKEY in between;
+// the observer's dump compares KEYS * and DBSIZE with the model after every step.
+var c06ChurnKeys = func() []string {
+	var ks []string
+	for _, m := range c05ChurnMembers {
+		ks = append(ks, "key:"+m)
+	}
+	return append(ks, "k1", "k2", "k3", "k4", "k5", "k6")
+}()
+
+func c06ChurnGen(rng *rand.Rand, m *model.Model, keys []string) []string {
+	span := []int{9, 14, len(c06ChurnKeys)}[rng.Intn(3)]
+	k := func() string { return c06ChurnKeys[rng.Intn(span)] }
+	switch x := rng.Intn(40); {
+	case x < 8:
+		return []string{"SET", k(), "v"}
+	case x < 10:
+		return []string{"RPUSH", k(), "a", "b"}
+	case x < 12:
+		return []string{"SADD", k(), "a", "b"}
+	case x < 14:
+		return []string{"HSET", k(), "f", "v"}
+	case x < 24:
+		a := []string{pick(rng, []string{"DEL", "UNLINK"})}
+		for i := 0; i < 1+rng.Intn(2)*rng.Intn(4); i++ {
+			a = append(a, k())
+		}
+		return a
+	case x < 26:
+		if rng.Intn(2) == 0 {
+			return []string{"SET", "churn", "1"}
+		}
+		return []string{"DEL", "churn"}
+	case x < 28:
+		return []string{"RENAME", k(), k()}
+	case x < 29:
+		return []string{"RENAMENX", k(), k()}
+	case x < 31:
+		return []string{"COPY", k(), k(), "REPLACE"}
+	case x < 32:
+		return []string{"GETDEL", k()}
+	case x < 33:
+		return []string{"LPOP", k()}
+	case x < 34:
+		return []string{"SREM", k(), "a", "b"}
+	case x < 35:
+		return []string{"PEXPIREAT", k(), "1"}
+	case x < 36:
+		return []string{"KEYS", pick(rng, []string{"*", "key:*", "k?", "key:[a-m]*", "*e*"})}
+	case x < 37:
+		return []string{"DBSIZE"}
+	case x < 38:
+		return []string{"RANDOMKEY"}
+	case x < 39:
+		return []string{"EXISTS", k(), k(), k()}
+	}
+	return []string{"TYPE", k()}
 }
